@@ -71,7 +71,8 @@ def gen_osu_doc(r: random.Random, hi: int = 10, keys: int | None = None) -> dict
         code = r.choice(BPM_CODES) if r.random() < 0.8 else repr(60000.0 / round(r.uniform(20, 400), 3))
         tps.append(dict(kind="bpm", offset=t, code=code, meter=r.choice([4, 4, 4, 3, 5, 7]), sample_set=r.randrange(4),
                         sample_set_index=r.choice([0, 0, 1, 2]), volume=r.choice([0, 10, 30, 50, 70, 100]), effects=r.choice([0, 0, 1])))
-    for _ in range(r.choice([0, 0, 1, 2, 3, 5])):
+    # (scaled sessions: long SV lists with several values stacked on one time - the last one listed stays in force)
+    for _ in range(r.choice([0, 0, 1, 2, 3, 5]) if hi <= 24 else r.randint(hi // 2, hi * 2)):
         code = r.choice(SV_CODES) if r.random() < 0.8 else repr(-100.0 / round(r.uniform(0.05, 8), 3))
         tps.append(dict(kind="sv", offset=_t_tp(r), code=code, meter=4, sample_set=r.randrange(4),
                         sample_set_index=r.choice([0, 0, 1, 2]), volume=r.choice([0, 10, 30, 50, 70, 100]), effects=r.choice([0, 0, 1])))
@@ -80,8 +81,8 @@ def gen_osu_doc(r: random.Random, hi: int = 10, keys: int | None = None) -> dict
     samples = [dict(offset=_t_int(r), sample_file=r.choice(OSU_FILES[3:]), volume=r.choice([0, 30, 70, 100]))
                for _ in range(r.choice([0, 0, 0, 1, 2, 3]))]
     meta = dict(
-        audio_file_name=r.choice(["audio.mp3", "a b.ogg", "曲.mp3", "x:y.mp3"]), audio_lead_in=r.choice([0, 0, 1000, 2500]),
-        preview_time=r.choice([-1, 0, 1000, 12345, 98765]), countdown=r.random() < 0.3, sample_set=r.randrange(4),
+        audio_file_name=r.choice(["audio.mp3", "a b.ogg", "曲.mp3", "x:y.mp3"]), audio_lead_in=r.choice([0, 0, 1000, 2500, 100000]),
+        preview_time=r.choice([-1, 0, 1000, 12345, 98765, 3600000, -5000]), countdown=r.random() < 0.3, sample_set=r.randrange(4),
         stack_leniency=r.choice([0.7, 0.5, 1, 0.2]), mode=3, letterbox_in_breaks=r.random() < 0.3, special_style=r.random() < 0.3,
         widescreen_storyboard=r.random() < 0.5,
         distance_spacing=r.choice([1, 1.2, 4, 0.8]), beat_divisor=r.choice([4, 8, 3, 12, 16]), grid_size=r.choice([4, 8, 16, 32]),
@@ -179,7 +180,8 @@ def gen_qua_doc(r: random.Random, hi: int = 10) -> dict:
         if hold:
             d["EndTime"] = max(int(st), 0) + r.choice([1, 50, 100, 250, 500, 1000, 333, 2000, r.randint(1, 5000)])
         if r.random() < 0.6:
-            d["KeySounds"] = r.choice([[], [], [dict(Sample=1, Volume=100)], [dict(Sample=2, Volume=50), dict(Sample=3, Volume=80)]])
+            d["KeySounds"] = r.choice([[], [], [dict(Sample=1, Volume=100)], [dict(Sample=2, Volume=50), dict(Sample=3, Volume=80)],
+                                       [dict(Sample=2, Volume=100.5), dict(Sample=3, Volume=150)], [dict(Sample=1, Volume=-5)]])
         objs.append(d)
     return dict(meta=meta, tps=tps, svs=svs, objs=objs)
 
@@ -254,13 +256,18 @@ def gen_sm_doc(r: random.Random, hi: int = 4, pipeline: dict | None = None) -> d
         else:
             beats.add(r.randint(0, 4 * n_measures * 8) / 8)  # 1/8-beat grid: exact in three decimals (subset of the 1/48 grid)
     bpms = [[f"{b:.3f}", r.choice(SM_BPM_STR)] for b in sorted(beats)]
-    if r.random() < 0.3:
+    if not pipeline and r.random() < 0.1:
+        # two (or three) tempo values listed on one beat: the last one listed governs what follows
+        i = r.randrange(len(bpms))
+        for _ in range(r.choice([1, 1, 2])):
+            bpms.insert(i + 1, [bpms[i][0], r.choice([v for v in SM_BPM_STR if v != bpms[i][1]])])
+    elif r.random() < 0.3:
         r.shuffle(bpms[1:])
     meta = dict(TITLE=r.choice(SM_STR), SUBTITLE=r.choice(SM_STR), ARTIST=r.choice(SM_STR), TITLETRANSLIT=r.choice(["", "tt"]),
                 SUBTITLETRANSLIT="", ARTISTTRANSLIT=r.choice(["", "at"]), GENRE=r.choice(["", "g"]), CREDIT=r.choice(SM_STR),
                 BANNER=r.choice(["", "bn.png"]), BACKGROUND=r.choice(["", "bg.jpg", "背景.png"]), LYRICSPATH="", CDTITLE="",
-                MUSIC=r.choice(["audio.mp3", "a b.ogg"]), SAMPLESTART=r.choice(["0.000", "30.500", "12.345"]),
-                SAMPLELENGTH=r.choice(["10.000", "12.000"]), SELECTABLE=r.choice(["YES", "YES", "NO"]),
+                MUSIC=r.choice(["audio.mp3", "a b.ogg"]), SAMPLESTART=r.choice(["0.000", "30.500", "12.345", "-1.000", "3600.000", "0", "7"]),
+                SAMPLELENGTH=r.choice(["10.000", "12.000", "0.000", "0.001", "600"]), SELECTABLE=r.choice(["YES", "YES", "NO"]),
                 DISPLAYBPM=r.choice(["", "120.000", "*", "100.000=200.000"[:7]]), BGCHANGES="", FGCHANGES="")
     for k in r.sample(["SUBTITLE", "TITLETRANSLIT", "SUBTITLETRANSLIT", "ARTISTTRANSLIT", "GENRE", "BANNER", "LYRICSPATH", "CDTITLE",
                        "DISPLAYBPM", "BGCHANGES", "FGCHANGES", "SAMPLESTART", "SAMPLELENGTH", "SELECTABLE"], r.choice([0, 0, 2, 6])):
@@ -366,8 +373,10 @@ def gen_positions(r: random.Random, tl, n_measures: int, n: int, divs=GRID_DIVS,
     return sorted(out)
 
 
-def gen_grid_objects(r: random.Random, tl, keys: int, n_measures: int, hi: int, kinds, min_gap: Fraction = Fraction(0), lcm_cap=None):
-    """{kind: rows} with per-column non-overlapping objects at grid positions"""
+def gen_grid_objects(r: random.Random, tl, keys: int, n_measures: int, hi: int, kinds, min_gap: Fraction = Fraction(0), lcm_cap=None,
+                     inside: bool = False):
+    """{kind: rows} with per-column non-overlapping objects at grid positions (inside=True: some long notes contain a tap of
+    their own column, on a slot of its own)"""
     res = {k: [] for k in kinds}
     span_kinds = [k for k in kinds if k in ("holds", "rolls")]
     point_kinds = [k for k in kinds if k not in ("holds", "rolls")]
@@ -386,7 +395,12 @@ def gen_grid_objects(r: random.Random, tl, keys: int, n_measures: int, hi: int, 
         i = 0
         while i < len(ps):
             t = float(ms_at(tl, ps[i]))
-            if span_kinds and i + 1 < len(ps) and r.random() < 0.35:
+            if inside and span_kinds and i + 2 < len(ps) and r.random() < 0.4:
+                t1, t2 = float(ms_at(tl, ps[i + 1])), float(ms_at(tl, ps[i + 2]))
+                res[r.choice(span_kinds)].append(dict(offset=t, column=c, length=t2 - t))
+                res[point_kinds[0]].append(dict(offset=t1, column=c))
+                i += 3
+            elif span_kinds and i + 1 < len(ps) and r.random() < 0.35:
                 t2 = float(ms_at(tl, ps[i + 1]))
                 res[r.choice(span_kinds)].append(dict(offset=t, column=c, length=t2 - t))
                 i += 2
@@ -516,6 +530,16 @@ def gen_bms_doc(r: random.Random, hi: int = 6, layout: str | None = None, odd_te
         else:
             seq[i] = ("%02X" % r.choice([60, 90, 120, 150, 180, 200, 240, 255, 30, 1])).encode("ascii")
             lines.append([m, b"03", seq, n])
+    if not pipeline and r.random() < 0.08:
+        # a "warp": one row of a 192-row line at an enormous tempo, the ordinary tempo back on the next row (a segment far
+        # shorter than a microsecond that still consumes its share of the measure)
+        wid, nid = _id36(1200 + r.randrange(40)), _id36(1250 + r.randrange(40))
+        headers.append([b"BPM" + wid, b"1750175"])
+        headers.append([b"BPM" + nid, r.choice([b"150", b"120", b"87.25"])])
+        seq = [b"00"] * 192
+        i = r.randrange(0, 190)
+        seq[i], seq[i + 1] = wid, nid
+        lines.append([r.randrange(n_meas), b"08", seq, 192])
     # dedupe tempo positions (two changes at one position are ambiguous)
     seen = set()
     keep = []
@@ -585,7 +609,9 @@ def gen_ojn_level(r: random.Random, n_meas: int, hi: int, tempo_on_measures=Fals
             k = r.randint(1, max(1, min(n, 3)))
             for i in sorted(r.sample(range(n), min(k, n))):
                 vol, pan = r.randrange(16), r.randrange(16)
-                if open_:
+                if open_ and not tempo_on_measures and r.random() < 0.2:  # (not in C09 sources: an #LNOBJ target cannot say that)
+                    ev[i] = [r.randint(1, 500), vol, pan, 0]  # a normal note while the long note of this column is still held
+                elif open_:
                     ev[i] = [r.randint(1, 500), vol, pan, 3]
                     open_ = False
                 elif r.random() < 0.3:
